@@ -2,6 +2,7 @@ package main
 
 import (
 	"bytes"
+	"crypto/x509"
 	"encoding/binary"
 	"encoding/json"
 	"errors"
@@ -10,9 +11,12 @@ import (
 	"os"
 	"sort"
 	"strings"
+	"sync"
+	"time"
 
 	"github.com/foxboron/go-uefi/efi/attributes"
 	efs "github.com/foxboron/go-uefi/efi/fs"
+	"github.com/foxboron/go-uefi/efi/signature"
 	"github.com/foxboron/go-uefi/efi/util"
 	"github.com/foxboron/go-uefi/efivar"
 	"github.com/foxboron/go-uefi/efivarfs"
@@ -49,6 +53,113 @@ func c11ShortLog(log []string) string {
 	return strings.Join(out, " ")
 }
 
+// the certificate the signed-update writes of this property are signed with (what is signed is C06's subject; here the
+// question is what reaches the filesystem)
+var c11SignCertCache *x509.Certificate
+
+func c11SignCert(c *Ctx) *x509.Certificate {
+	if c11SignCertCache == nil {
+		c11SignCertCache = makeRSACert(poolKey(c, 2048, 0), certShapes(c)[0])
+	}
+	return c11SignCertCache
+}
+
+// c11WantBuffer says whether p is the buffer the contract asks for: the 4-byte little-endian mask of the variable
+// definition followed by the encoded value.  For a signed update the encoded value is an authentication descriptor
+// (16-byte timestamp, WIN_CERTIFICATE whose dwLength delimits it) followed by the value given; the descriptor's content
+// is C06's subject and differs from call to call, so only its extent is used here.  "" means yes.
+func c11WantBuffer(p []byte, attrs uint32, value []byte, signed bool) string {
+	want := make([]byte, 4, 4+len(value))
+	binary.LittleEndian.PutUint32(want, attrs)
+	if !signed {
+		want = append(want, value...)
+		if !bytes.Equal(p, want) {
+			return "write(" + hx(want) + ")"
+		}
+		return ""
+	}
+	spec := "write(" + hx(want) + " || authentication descriptor || " + hx(value) + ")"
+	if len(p) < 4+40 || !bytes.Equal(p[:4], want) {
+		return spec
+	}
+	dw := int(binary.LittleEndian.Uint32(p[4+16:]))
+	if dw < 24 || 4+16+dw > len(p) || !bytes.Equal(p[4+16+dw:], value) {
+		return spec
+	}
+	return ""
+}
+
+// c11CheckWriteLog holds the calls ONE variable write made on the filesystem against the efivarfs contract of the property
+// statement: one OpenFile of <efivars directory>/<Name>-<canonical lower-case GUID>, write-only with create, in append
+// mode iff APPEND_WRITE is in the definition's mask; one Write of mask || encoded value; Close; nothing else.  It returns
+// the buffer of the (last) Write.
+func c11CheckWriteLog(log []string, wantPath string, attrs uint32, value []byte, signed, faulted bool, fail func(what, spec string)) (written []byte) {
+	writes, opens := 0, 0
+	for _, l := range log {
+		switch {
+		case strings.HasPrefix(l, "write("):
+			writes++
+			written = unhx(strings.TrimSuffix(strings.TrimPrefix(strings.TrimSuffix(l, "!"), "write("), ")"))
+			if spec := c11WantBuffer(written, attrs, value, signed); spec != "" {
+				fail("the buffer written is not the 4-byte little-endian attribute mask followed by the encoded value", spec)
+			}
+		case strings.HasPrefix(l, "openfile("):
+			opens++
+			var p string
+			var flag, perm int
+			f := strings.Split(strings.TrimSuffix(strings.TrimPrefix(strings.TrimSuffix(l, "!"), "openfile("), ")"), ",")
+			if len(f) == 3 {
+				p = f[0]
+				fmt.Sscan(f[1], &flag)
+				fmt.Sscan(f[2], &perm)
+			}
+			if p != wantPath {
+				fail("the file opened is not <efivars directory>/<Name>-<canonical lower-case GUID>", wantPath)
+			}
+			if flag&(os.O_WRONLY|os.O_RDWR) != os.O_WRONLY || flag&os.O_CREATE == 0 {
+				fail("the file is not opened write-only with create", "O_WRONLY|O_CREATE")
+			}
+			if (flag&os.O_APPEND != 0) != (attrs&0x40 != 0) {
+				fail("append mode must be used if and only if APPEND_WRITE is set", fmt.Sprintf("append=%v", attrs&0x40 != 0))
+			}
+		case l == "close" || l == "stat" || l == "close!":
+		default:
+			fail("the write touched something else: "+l, "one OpenFile, one Write, Close")
+		}
+	}
+	if !faulted && (writes != 1 || opens != 1) || writes > 1 || opens > 1 {
+		fail(fmt.Sprintf("%d write operations on %d opened files", writes, opens), "exactly one write on one file")
+	}
+	return written
+}
+
+// the calls one write made, in the form the Lean program model prints them
+func c11GoTrace(log []string, err error, bufLen int, fault string) string {
+	goTrace := "ok"
+	if err != nil {
+		goTrace = "err"
+	}
+	for _, l := range log {
+		if strings.HasPrefix(l, "write(") {
+			switch {
+			case !strings.HasSuffix(l, "!"):
+				l += fmt.Sprintf("=%d", bufLen)
+			case fault == "short1":
+				l = strings.TrimSuffix(l, "!") + fmt.Sprintf("=%d", bufLen-1)
+			case fault == "short0":
+				l = strings.TrimSuffix(l, "!") + "=0"
+			}
+		}
+		if l == "close!" {
+			l = "close"
+		}
+		if l != "stat" {
+			goTrace += " " + l
+		}
+	}
+	return goTrace
+}
+
 func c11EvalWrite(c *Ctx, cs Case) {
 	dir := cs.S("dir")
 	name := string(unhx(cs.S("name")))
@@ -56,6 +167,7 @@ func c11EvalWrite(c *Ctx, cs Case) {
 	attrs := uint32(cs.I("attrs"))
 	value := unhx(cs.S("value"))
 	api := cs.S("api")
+	signed := api == "object-signed"
 	c.Count(cs.Key(), true, "write/"+api+"/"+cs.S("class"))
 	if len(value) < 100 {
 		c.Sample(cs)
@@ -81,11 +193,18 @@ func c11EvalWrite(c *Ctx, cs Case) {
 	defer func() { attributes.Efivars = oldDir }()
 	var err error
 	pan, msg := safely(func() {
-		if api == "object" {
+		if api == "object" || signed {
 			fw := fswrapper.NewMemoryWrapper()
 			fw.SetFS(rec)
 			e := &efivarfs.EFIFS{FSWrapper: fw}
-			err = e.WriteVar(efivar.Efivar{Name: name, GUID: &g, Attributes: attributes.Attributes(attrs)}, rawValue(value))
+			def := efivar.Efivar{Name: name, GUID: &g, Attributes: attributes.Attributes(attrs)}
+			if signed {
+				// the caller-level signed update of the same definition: what reaches the file is the definition's mask
+				// followed by the signed update of the value
+				err = e.Open().WriteSignedUpdate(def, rawValue(value), poolKey(c, 2048, 0), c11SignCert(c))
+			} else {
+				err = e.WriteVar(def, rawValue(value))
+			}
 		} else {
 			old := efs.Fs
 			efs.SetFS(rec)
@@ -120,75 +239,188 @@ func c11EvalWrite(c *Ctx, cs Case) {
 	}
 	// ---- the efivarfs contract, from the property statement ----
 	wantPath := dir + "/" + name + "-" + canonGUIDText(g)
-	wantBuf := make([]byte, 4, 4+len(value))
-	binary.LittleEndian.PutUint32(wantBuf, attrs)
-	wantBuf = append(wantBuf, value...)
-	writes, opens := 0, 0
-	for _, l := range log {
-		switch {
-		case strings.HasPrefix(l, "write("):
-			writes++
-			if strings.TrimSuffix(l, "!") != "write("+hx(wantBuf)+")" {
-				fail("the buffer written is not the 4-byte little-endian attribute mask followed by the encoded value", "write("+hx(wantBuf)+")")
-			}
-		case strings.HasPrefix(l, "openfile("):
-			opens++
-			var p string
-			var flag, perm int
-			f := strings.Split(strings.TrimSuffix(strings.TrimPrefix(l, "openfile("), ")"), ",")
-			if len(f) == 3 {
-				p = f[0]
-				fmt.Sscan(f[1], &flag)
-				fmt.Sscan(f[2], &perm)
-			}
-			if p != wantPath {
-				fail("the file opened is not <efivars directory>/<Name>-<canonical lower-case GUID>", wantPath)
-			}
-			if flag&(os.O_WRONLY|os.O_RDWR) != os.O_WRONLY || flag&os.O_CREATE == 0 {
-				fail("the file is not opened write-only with create", "O_WRONLY|O_CREATE")
-			}
-			if (flag&os.O_APPEND != 0) != (attrs&0x40 != 0) {
-				fail("append mode must be used if and only if APPEND_WRITE is set", fmt.Sprintf("append=%v", attrs&0x40 != 0))
-			}
-		case l == "close" || l == "stat" || l == "close!":
-		default:
-			fail("the write touched something else: "+l, "one OpenFile, one Write, Close")
-		}
-	}
-	if fault == "" && (writes != 1 || opens != 1) || writes > 1 || opens > 1 {
-		fail(fmt.Sprintf("%d write operations on %d opened files", writes, opens), "exactly one write on one file")
-	}
+	written := c11CheckWriteLog(log, wantPath, attrs, value, signed, fault != "", fail)
 	// ---- correspondence with the Lean program model ----
+	modelValue, bufLen := value, 4+len(value)
+	if signed {
+		// the model writes mask || encoded value; the encoded value of a signed update is what followed the mask
+		if len(written) < 4 {
+			return
+		}
+		modelValue, bufLen = written[4:], len(written)
+	}
 	c.Trace()
-	margs := append(append([]string{hx([]byte(dir)), hx([]byte(name))}, guidArgs(g)...), fmt.Sprint(attrs), hx(value))
+	margs := append(append([]string{hx([]byte(dir)), hx([]byte(name))}, guidArgs(g)...), fmt.Sprint(attrs), hx(modelValue))
 	if fault != "" {
 		margs = append(margs, fmt.Sprint(faultK), fault)
 	}
 	m := c.Drv.Ask("fs.write", margs...)
-	goTrace := "ok"
-	if err != nil {
-		goTrace = "err"
+	if goTrace := c11GoTrace(log, err, bufLen, fault); m != goTrace {
+		c.Fail(Failure{Kind: "tie", What: "WriteVar: the call trace differs from the Lean program model (" + api + ")", Case: cs, Model: clip(m), Go: clip(goTrace)})
 	}
-	for _, l := range log {
-		if strings.HasPrefix(l, "write(") {
-			switch {
-			case !strings.HasSuffix(l, "!"):
-				l += fmt.Sprintf("=%d", len(wantBuf))
-			case fault == "short1":
-				l = strings.TrimSuffix(l, "!") + fmt.Sprintf("=%d", len(wantBuf)-1)
-			case fault == "short0":
-				l = strings.TrimSuffix(l, "!") + "=0"
+}
+
+// c11Park is the caller's side of a filesystem that takes its time: every Write on a file parks until the harness lets all
+// of them go.  The harness starts the writers one after the other, each when the one before it is parked in its Write (or
+// has returned), so the interleaving is always the same: every call has assembled its buffer and is inside its one Write
+// when the first Write is carried out.
+type c11Park struct {
+	mu      sync.Mutex
+	parked  int
+	done    int
+	event   chan struct{}
+	release chan struct{}
+}
+
+func (p *c11Park) gate(string) {
+	select {
+	case <-p.release:
+		return
+	default:
+	}
+	p.mu.Lock()
+	p.parked++
+	p.mu.Unlock()
+	p.event <- struct{}{}
+	<-p.release
+}
+
+type c11Writer struct {
+	Name  string `json:"name"`
+	GUID  string `json:"guid"`
+	Attrs int64  `json:"attrs"`
+	Value string `json:"value"`
+}
+
+// several variable writes in flight at once (one goroutine each) on one filesystem: through one EFIFS shared by all
+// ("object-shared"), through an EFIFS / FSWrapper of its own per writer ("object"), or through the legacy package-level
+// API.  Each of them must do what it does alone: its own file, one Write of ITS mask and ITS value.
+func c11EvalConc(c *Ctx, cs Case) {
+	dir := cs.S("dir")
+	api := cs.S("api")
+	var ws []c11Writer
+	wj, _ := json.Marshal(cs["writers"])
+	json.Unmarshal(wj, &ws)
+	paths := map[string]bool{}
+	pathOf := func(w c11Writer) string {
+		return dir + "/" + string(unhx(w.Name)) + "-" + canonGUIDText(guidFromWire(unhx(w.GUID)))
+	}
+	for _, w := range ws {
+		paths[pathOf(w)] = true
+	}
+	if len(ws) < 2 || len(paths) != len(ws) {
+		c.Count(cs.Key(), false, "write-conc/"+api+"/not-distinct-variables")
+		return
+	}
+	mem := afero.NewMemMapFs()
+	rec := newRecFs(mem)
+	park := &c11Park{event: make(chan struct{}, 8*len(ws)+8), release: make(chan struct{})}
+	rec.gate = park.gate
+	oldDir := attributes.Efivars
+	attributes.Efivars = dir
+	defer func() { attributes.Efivars = oldDir }()
+	oldFs := efs.Fs
+	efs.SetFS(rec)
+	defer efs.SetFS(oldFs)
+	var sharedFS *efivarfs.EFIFS
+	if api == "object-shared" {
+		fw := fswrapper.NewMemoryWrapper()
+		fw.SetFS(rec)
+		sharedFS = &efivarfs.EFIFS{FSWrapper: fw}
+	}
+	errs := make([]error, len(ws))
+	pans := make([]string, len(ws))
+	var wg sync.WaitGroup
+	stalled := false
+	for i := range ws {
+		wg.Add(1)
+		go func(i int) {
+			defer wg.Done()
+			defer func() {
+				park.mu.Lock()
+				park.done++
+				park.mu.Unlock()
+				park.event <- struct{}{}
+			}()
+			w := ws[i]
+			g := guidFromWire(unhx(w.GUID))
+			name, attrs, value := string(unhx(w.Name)), attributes.Attributes(uint32(w.Attrs)), unhx(w.Value)
+			if pan, msg := safely(func() {
+				switch api {
+				case "legacy":
+					errs[i] = attributes.WriteEfivarsWithGuid(name, attrs, value, g)
+				case "object-shared":
+					errs[i] = sharedFS.WriteVar(efivar.Efivar{Name: name, GUID: &g, Attributes: attrs}, rawValue(value))
+				default:
+					fw := fswrapper.NewMemoryWrapper()
+					fw.SetFS(rec)
+					errs[i] = (&efivarfs.EFIFS{FSWrapper: fw}).WriteVar(efivar.Efivar{Name: name, GUID: &g, Attributes: attrs}, rawValue(value))
+				}
+			}); pan {
+				pans[i] = "panic: " + msg
+			}
+		}(i)
+		// the next writer starts when this one is parked in its Write, or has returned
+		tmo := time.After(2 * time.Second)
+	wait:
+		for {
+			park.mu.Lock()
+			there := park.parked+park.done >= i+1
+			park.mu.Unlock()
+			if there {
+				break
+			}
+			select {
+			case <-park.event:
+			case <-tmo:
+				stalled = true // a library that lets one write wait for another: the calls then simply run one after the other
+				break wait
 			}
 		}
-		if l == "close!" {
-			l = "close"
+	}
+	park.mu.Lock()
+	inFlight := park.parked
+	park.mu.Unlock()
+	close(park.release)
+	wg.Wait()
+	c.Count(cs.Key(), inFlight >= 2, fmt.Sprintf("write-conc/%s/%s/in-flight%d", api, cs.S("class"), inFlight))
+	if len(cs.Key()) < 1200 {
+		c.Sample(cs)
+	}
+	if stalled {
+		c.Note("write-conc: a writer neither reached its Write nor returned while another was parked", cs.S("class"))
+	}
+	for i, w := range ws {
+		log := rec.LogOf(pathOf(w))
+		value, attrs := unhx(w.Value), uint32(w.Attrs)
+		fail := func(what, spec string) {
+			c.Fail(Failure{Kind: "property", What: fmt.Sprintf("with %d variable writes in flight at once (every writer parked in its Write until all had reached theirs), the write of variable %d of %d (%s, mask %d, value of %d bytes) did not do what the same write does alone: ", inFlight, i+1, len(ws), string(unhx(w.Name)), attrs, len(value)) + what + " (" + api + " API)", Case: cs, Go: clip(c11ShortLog(log)), Spec: clip(spec)})
 		}
-		if l != "stat" {
-			goTrace += " " + l
+		if pans[i] != "" || errs[i] != nil {
+			fail("it failed on a healthy filesystem: "+pans[i]+fmt.Sprint(errs[i]), "ok")
+			continue
+		}
+		nf := c.NFailures()
+		c11CheckWriteLog(log, pathOf(w), attrs, value, false, false, fail)
+		if stored, rerr := afero.ReadFile(mem, pathOf(w)); c.NFailures() == nf && (rerr != nil || c11WantBuffer(stored, attrs, value, false) != "") {
+			fail("the variable file does not hold the mask and value of this write afterwards: "+hx(stored), strings.TrimSuffix(strings.TrimPrefix(c11WantBuffer(nil, attrs, value, false), "write("), ")"))
+		}
+		c.Trace()
+		g := guidFromWire(unhx(w.GUID))
+		m := c.Drv.Ask("fs.write", append(append([]string{hx([]byte(dir)), hx(unhx(w.Name))}, guidArgs(g)...), fmt.Sprint(attrs), hx(value))...)
+		if goTrace := c11GoTrace(log, nil, 4+len(value), ""); m != goTrace {
+			c.Fail(Failure{Kind: "tie", What: fmt.Sprintf("concurrent writes, writer %d: the call trace on its file differs from the Lean program model (%s)", i+1, api), Case: cs, Model: clip(m), Go: clip(goTrace)})
 		}
 	}
-	if m != goTrace {
-		c.Fail(Failure{Kind: "tie", What: "WriteVar: the call trace differs from the Lean program model (" + api + ")", Case: cs, Model: clip(m), Go: clip(goTrace)})
+	// nothing but the writers' files was touched
+	for _, l := range rec.Log() {
+		if strings.HasPrefix(l, "openfile(") {
+			if f := strings.Split(strings.TrimPrefix(l, "openfile("), ","); !paths[f[0]] {
+				c.Fail(Failure{Kind: "property", What: "concurrent writes touched something else: " + l + " (" + api + " API)", Case: cs, Go: clip(c11ShortLog(rec.Log()))})
+			}
+		} else if !strings.HasPrefix(l, "write(") && l != "close" && l != "stat" {
+			c.Fail(Failure{Kind: "property", What: "concurrent writes touched something else: " + l + " (" + api + " API)", Case: cs, Go: clip(c11ShortLog(rec.Log()))})
+		}
 	}
 }
 
@@ -291,9 +523,6 @@ func c11EvalRead(c *Ctx, cs Case) {
 // with the true size, a smaller and a larger declared size, and compares with the code TRANSLATED from the source
 // (Gen.lean, theorems C11g_parse_*): attributes, value, and how much of the reader is left.
 func c11ParseTie(c *Ctx, cs Case, stored []byte) {
-	if c.GenDrv == nil {
-		return
-	}
 	sizes := []int{len(stored), len(stored) - 1, len(stored) - 3, len(stored) + 1, 4, 5, 3}
 	for _, size := range sizes {
 		if size < 0 {
@@ -320,6 +549,22 @@ func c11ParseTie(c *Ctx, cs Case, stored []byte) {
 		goObs := a
 		if a != b {
 			goObs = "twins-differ " + a + " / " + b
+		}
+		// the statement itself, where it speaks: with the file's true size the parser returns the stored mask and the bytes
+		// after the first four and leaves nothing unread; a size below four yields an error (other declared sizes are only
+		// compared with the translated code)
+		spec := ""
+		switch {
+		case size < 4:
+			spec = "err"
+		case size == len(stored):
+			spec = fmt.Sprintf("ok attrs=%d value=%s rest=0", binary.LittleEndian.Uint32(stored), hx(stored[4:]))
+		}
+		if spec != "" && (a != spec || b != spec) {
+			c.Fail(Failure{Kind: "property", What: fmt.Sprintf("ParseEfivars (attributes.ParseEfivars / FSWrapper.ParseEfivars) on a reader over the stored bytes with declared size %d does not return the stored attributes and the bytes after the first four (an error below four bytes)", size), Case: cs, Go: clip(goObs), Spec: clip(spec)})
+		}
+		if c.GenDrv == nil {
+			continue
 		}
 		g := c.GenDrv.Ask("gen.efivars.parse", hx(stored), fmt.Sprint(size))
 		c.genTies++
@@ -515,9 +760,155 @@ func c11EvalSeq(c *Ctx, cs Case) {
 	}
 }
 
+// c11Typed lists the typed accessors of Efivarfs: each reads ONE predefined definition and decodes its value.  obs gives the
+// result as text ("" with the error when it failed; GetBootOrder has no error result and returns nil instead).
+type c11TypedAcc struct {
+	name string
+	def  func(arg string) efivar.Efivar
+	call func(e *efivarfs.Efivarfs, arg string) (string, error)
+	want func(value []byte) string // the decoded value, computed beside the library
+}
+
+func c11DbText(db *signature.SignatureDatabase, err error) (string, error) {
+	if err != nil || db == nil {
+		return "", err
+	}
+	return hx(db.Bytes()), nil
+}
+
+func c11TypedAccessors() []c11TypedAcc {
+	fixed := func(v efivar.Efivar) func(string) efivar.Efivar { return func(string) efivar.Efivar { return v } }
+	dbWant := func(v []byte) string { return hx(v) }
+	boolWant := func(v []byte) string { return fmt.Sprint(len(v) > 0 && v[0] == 1) }
+	return []c11TypedAcc{
+		{"GetPK", fixed(efivar.PK), func(e *efivarfs.Efivarfs, _ string) (string, error) { return c11DbText(e.GetPK()) }, dbWant},
+		{"GetKEK", fixed(efivar.KEK), func(e *efivarfs.Efivarfs, _ string) (string, error) { return c11DbText(e.GetKEK()) }, dbWant},
+		{"Getdb", fixed(efivar.Db), func(e *efivarfs.Efivarfs, _ string) (string, error) { return c11DbText(e.Getdb()) }, dbWant},
+		{"Getdbx", fixed(efivar.Dbx), func(e *efivarfs.Efivarfs, _ string) (string, error) { return c11DbText(e.Getdbx()) }, dbWant},
+		{"GetSetupMode", fixed(efivar.SetupMode), func(e *efivarfs.Efivarfs, _ string) (string, error) {
+			b, err := e.GetSetupMode()
+			return fmt.Sprint(b), err
+		}, boolWant},
+		{"GetSecureBoot", fixed(efivar.SecureBoot), func(e *efivarfs.Efivarfs, _ string) (string, error) {
+			b, err := e.GetSecureBoot()
+			return fmt.Sprint(b), err
+		}, boolWant},
+		{"GetBootOrder", fixed(efivar.BootOrder), func(e *efivarfs.Efivarfs, _ string) (string, error) {
+			o := e.GetBootOrder()
+			if o == nil {
+				return "", errors.New("nil")
+			}
+			return strings.Join(o, ","), nil
+		}, func(v []byte) string {
+			var o []string
+			for i := 0; i+1 < len(v); i += 2 {
+				o = append(o, fmt.Sprintf("Boot%04X", binary.LittleEndian.Uint16(v[i:])))
+			}
+			return strings.Join(o, ",")
+		}},
+		{"GetLoaderEntrySelected", fixed(efivar.LoaderEntrySelected), func(e *efivarfs.Efivarfs, _ string) (string, error) { return e.GetLoaderEntrySelected() }, func(v []byte) string {
+			var o []byte
+			for i := 0; i+1 < len(v) && (v[i] != 0 || v[i+1] != 0); i += 2 {
+				o = append(o, v[i]) // the generated strings are ASCII
+			}
+			return string(o)
+		}},
+		// GetBootEntry(option) reads the definition BootEntry under the name it is given; its value decoder is C18's subject,
+		// here only which file is read and the attribute / absence behaviour
+		{"GetBootEntry", func(arg string) efivar.Efivar { v := efivar.BootEntry; v.Name = arg; return v }, func(e *efivarfs.Efivarfs, arg string) (string, error) {
+			_, err := e.GetBootEntry(arg)
+			return "", err
+		}, nil},
+	}
+}
+
+// a read through one of the typed accessors: it must read the file of ITS definition in the efivars directory and nothing
+// else, fail with the wrong-attributes error when the stored mask lacks an attribute the definition requires, fail on an
+// absent or short file, and otherwise return the value decoded from the bytes after the first four.
+func c11EvalTyped(c *Ctx, cs Case) {
+	dir, accName, arg, file := cs.S("dir"), cs.S("accessor"), cs.S("arg"), cs.S("file")
+	var acc *c11TypedAcc
+	for _, a := range c11TypedAccessors() {
+		if a.name == accName {
+			a := a
+			acc = &a
+		}
+	}
+	if acc == nil {
+		return
+	}
+	c.Count(cs.Key(), true, "read-typed/"+accName+"/"+cs.S("class"))
+	def := acc.def(arg)
+	path := dir + "/" + def.Name + "-" + canonGUIDText(*def.GUID)
+	mem := afero.NewMemMapFs()
+	mem.MkdirAll(dir, 0o755)
+	var stored []byte
+	if file != "absent" {
+		stored = unhx(file)
+		afero.WriteFile(mem, path, stored, 0o644)
+	}
+	rec := newRecFs(mem)
+	oldDir := attributes.Efivars
+	attributes.Efivars = dir
+	defer func() { attributes.Efivars = oldDir }()
+	var got string
+	var err error
+	pan, msg := safely(func() {
+		fw := fswrapper.NewMemoryWrapper()
+		fw.SetFS(rec)
+		got, err = acc.call((&efivarfs.EFIFS{FSWrapper: fw}).Open(), arg)
+	})
+	fail := func(what, spec string) {
+		c.Fail(Failure{Kind: "property", What: accName + ": " + what, Case: cs, Go: clip(fmt.Sprintf("result=%q err=%v calls=[%s]", got, err, strings.Join(rec.Log(), " "))), Spec: clip(spec)})
+	}
+	if pan {
+		fail("reading a variable panicked: "+msg, "")
+		return
+	}
+	opened := 0
+	for _, l := range rec.Log() {
+		switch {
+		case strings.HasPrefix(l, "open("):
+			opened++
+			if l != "open("+path+")" {
+				fail("the file read is not <efivars directory>/<Name>-<canonical lower-case GUID> of the accessor's definition", "open("+path+")")
+			}
+		case strings.HasPrefix(l, "read(") || l == "stat" || l == "close" || strings.HasPrefix(l, "fsstat("+path+")"):
+		default:
+			fail("reading touched something else: "+l, "Open, Stat, Read, Close of the variable's file")
+		}
+	}
+	if opened == 0 {
+		fail("the variable's file was not opened", "open("+path+")")
+	}
+	required := uint32(def.Attributes)
+	switch {
+	case file == "absent" || len(stored) < 4:
+		if err == nil {
+			fail("an absent or shorter-than-four-byte file must yield an error", "error")
+		}
+	case required&binary.LittleEndian.Uint32(stored) != required:
+		if err == nil || (accName != "GetBootOrder" && !errors.Is(err, efivarfs.ErrIncorrectAttributes)) {
+			fail("a stored mask lacking a required attribute must fail with the wrong-attributes error", "ErrIncorrectAttributes")
+		}
+	case acc.want != nil:
+		if want := acc.want(stored[4:]); err != nil || got != want {
+			fail("the accessor must return the value decoded from the bytes after the first four", want)
+		}
+	}
+}
+
 func c11Eval(c *Ctx, cs Case) {
 	if cs.S("op") == "read-seq" {
 		c11EvalSeq(c, cs)
+		return
+	}
+	if cs.S("op") == "write-conc" {
+		c11EvalConc(c, cs)
+		return
+	}
+	if cs.S("op") == "read-typed" {
+		c11EvalTyped(c, cs)
 		return
 	}
 	if cs.S("op") == "read" {
@@ -569,6 +960,10 @@ func c11Gen(c *Ctx) {
 				c11EvalWrite(c, Case{"op": "write", "api": api, "class": k + "/real-dir", "dir": "@real", "name": hx([]byte(d.name)), "guid": hx(wireGUID(d.guid)), "attrs": int64(d.attrs), "value": hx(values[k])})
 			}
 		}
+		// the same value written as a signed update of the same definition (Efivarfs.WriteSignedUpdate over the EFIFS): the
+		// file gets the DEFINITION's mask followed by the encoded value, which is now descriptor || value - whatever the
+		// mask is (with or without the time-based-authentication and append bits)
+		c11EvalWrite(c, Case{"op": "write", "api": "object-signed", "class": k, "dir": dirs[i%len(dirs)], "name": hx([]byte(d.name)), "guid": hx(wireGUID(d.guid)), "attrs": int64(d.attrs), "value": hx(values[k])})
 		// the same write on a filesystem that fails or shortens one call: still at most one write,
 		// and the failure is reported
 		if i%4 == 0 || c.Thorough {
@@ -661,6 +1056,40 @@ func c11Gen(c *Ctx) {
 			c11EvalRead(c, Case{"op": "read", "api": api, "class": "short-or-absent", "dir": dir, "name": hx([]byte(d.name)), "guid": hx(wireGUID(d.guid)), "required": int64(0), "file": short})
 		}
 	}
+	// ---- the typed accessors of Efivarfs (GetPK, GetKEK, Getdb, Getdbx, GetSetupMode, GetSecureBoot, GetBootOrder,
+	// GetLoaderEntrySelected, GetBootEntry): each against the file of its own definition, with stored masks equal /
+	// superset / lacking one required attribute, absent and short files, and values of its kind
+	typedValues := map[string][][]byte{
+		"GetSetupMode": {{1}, {0}}, "GetSecureBoot": {{0}, {1}},
+		"GetBootOrder":           {{1, 0}, {3, 0, 0, 0, 0x10, 0x0a, 0xff, 0xff}},
+		"GetLoaderEntrySelected": {util.MarshalUtf16Var("arch-linux.efi"), util.MarshalUtf16Var("x")},
+		"GetBootEntry":           {nil},
+	}
+	for i, a := range c11TypedAccessors() {
+		vals := typedValues[a.name]
+		if vals == nil {
+			vals = [][]byte{db, encodeList(tSHA256, nil, 48, [][2][]byte{{u.owners[0], u.data[0]}, {u.owners[1], u.data[1]}}), nil}
+		}
+		arg := ""
+		if a.name == "GetBootEntry" {
+			arg = []string{"Boot0001", "Boot00AF"}[i%2]
+		}
+		req := uint32(a.def(arg).Attributes)
+		for j, val := range vals {
+			dir := dirs[(i+j)%len(dirs)]
+			for mk, m := range map[string]uint32{"equal": req, "superset": req | 0x88, "lacking": req &^ (req & -req)} {
+				if a.name == "GetBootEntry" && mk != "lacking" {
+					continue // a value is needed for these: C18
+				}
+				file := make([]byte, 4)
+				binary.LittleEndian.PutUint32(file, m)
+				c11EvalTyped(c, Case{"op": "read-typed", "accessor": a.name, "arg": arg, "class": "mask-" + mk, "dir": dir, "file": hx(append(file, val...))})
+			}
+			for _, short := range []string{"absent", "0700"} {
+				c11EvalTyped(c, Case{"op": "read-typed", "accessor": a.name, "arg": arg, "class": "short-or-absent", "dir": dir, "file": short})
+			}
+		}
+	}
 	// ---- held results: several variables read (and rewritten) through ONE EFIFS / FSWrapper, through every reader entry
 	// point (GetVar, GetVarWithAttributes with an Unmarshallable that keeps the bytes it is handed; FSWrapper.ReadEfivarsWithGuid,
 	// FSWrapper.ReadEfivarsFile and the legacy attributes.ReadEfivarsWithGuid, whose *bytes.Buffer is kept).  The value a
@@ -709,6 +1138,47 @@ func c11Gen(c *Ctx) {
 			ssteps = append(ssteps, map[string]interface{}{"k": "R", "var": vi, "via": vias[c.Rng.Intn(len(vias))]})
 		}
 		c11EvalSeq(c, Case{"op": "read-seq", "class": fmt.Sprintf("vars%d", nv), "dir": dirs[i%len(dirs)], "vars": svars, "steps": ssteps})
+	}
+	// ---- writes in flight at once: 2..3 goroutines each write a different variable on one filesystem whose Write parks
+	// until every writer has reached its own (a filesystem may take its time; efivarfs does), through one shared EFIFS,
+	// through one EFIFS / FSWrapper per writer, or through the legacy package-level API.  The definitions share one
+	// attribute mask (two cases out of three) or not; the values are the small ones variables usually hold (empty,
+	// boolean, boot order, UTF-16 string, a few to a few dozen raw bytes) and sometimes larger ones.  Every write must do
+	// on its file what it does alone.
+	for i := 0; i < c.N(90, 3000); i++ {
+		if c.NFailures() >= 6 {
+			return
+		}
+		nw := 2 + c.Rng.Intn(2)
+		base := defs[c.Rng.Intn(len(defs))]
+		var writers []interface{}
+		class := ""
+		for j := 0; j < nw; j++ {
+			d := defs[c.Rng.Intn(len(defs))]
+			mask := base.attrs
+			if (i/3)%3 == 2 {
+				mask = d.attrs
+			}
+			var val []byte
+			vc := ""
+			switch c.Rng.Intn(7) {
+			case 0:
+				vc, val = "bool", []byte{byte(c.Rng.Intn(2))}
+			case 1:
+				vc, val = "bootorder", randBytes(c, 2*(1+c.Rng.Intn(8)))
+			case 2:
+				vc, val = "string", util.MarshalUtf16Var([]string{"arch-linux.efi", "fallback", "auto-windows", "x"}[c.Rng.Intn(4)])
+			case 3:
+				vc, val = "large", randBytes(c, 100+c.Rng.Intn(400))
+			case 4:
+				vc, val = "empty", nil
+			default:
+				vc, val = "small", randBytes(c, 1+c.Rng.Intn(96))
+			}
+			class += map[bool]string{true: "+"}[j > 0] + vc
+			writers = append(writers, map[string]interface{}{"name": hx([]byte(fmt.Sprintf("%s%d", d.name, j))), "guid": hx(wireGUID(d.guid)), "attrs": int64(mask), "value": hx(val)})
+		}
+		c11EvalConc(c, Case{"op": "write-conc", "api": []string{"object-shared", "object", "legacy"}[i%3], "class": map[bool]string{true: "same-mask", false: "own-masks"}[(i/3)%3 != 2], "values": class, "dir": dirs[i%len(dirs)], "writers": writers})
 	}
 	// ---- value sizes: the contract is one write whatever the size of the value (a dbx is tens of kilobytes).  Buffers
 	// (attributes + value) of 2^k-1, 2^k, 2^k+1 bytes around the usual I/O buffer and page sizes, and signature
@@ -769,7 +1239,7 @@ func c11Gen(c *Ctx) {
 
 func init() {
 	register("C11", &PropDef{
-		Rule:   "every predefined efivar.Efivar (25, each also with APPEND_WRITE added) and random (name, GUID, attribute) definitions x values {empty, boolean, UTF-16 string, signature database, raw} x three efivars directories x the object API (EFIFS over FSWrapper.SetFS) and the legacy attributes.* API (fs.SetFS), on a recording afero.Fs, healthy and with one failing or short call (OpenFile error, Write error, Write one byte short, Write of zero bytes, Close error); reads with stored masks {equal, superset, subset, disjoint} and absent / 0..3-byte files, with a probe value that records whether decoding was attempted. The legacy by-name API (attributes.WriteEfivars / ReadEfivars, which derives the vendor GUID from the name): every predefined definition under the global or image-security-database GUID, the four database names db/dbx/dbt/dbr, and suffix / truncation / case variations of all of them (not database names unless they coincide with one), written (also with APPEND_WRITE and with the faults) and read (also through ReadEfivarsWithGuid) against the file <Name>-<GUID of the definition>. Value sizes: buffers of 2^k-1, 2^k, 2^k+1 bytes (k = 9, 12, 13, 16; thorough also 15) and SHA-256 databases of 100 / 400 / 1000 (thorough 3000) entries through every API, healthy and faulted, and read back. Held results: sequences of 2..8 (thorough ..20) reads and writes of 1..4 variables (values of 0..2000 bytes that grow, shrink and repeat; masks equal / superset / lacking a required attribute; absent and short files) through ONE EFIFS / FSWrapper and the one legacy filesystem, every read through one of GetVar and GetVarWithAttributes (with an Unmarshallable that keeps the bytes it is handed, without copying), FSWrapper.ReadEfivarsWithGuid, FSWrapper.ReadEfivarsFile and attributes.ReadEfivarsWithGuid (the returned *bytes.Buffer is kept): each read is compared with the bytes the file holds at that moment and with the Lean model, and every value handed out by an earlier read is compared again after every later read and write (of another variable, or of the same one after a new write) and must still be the value that was read. Every case is non-trivial; distinct = distinct cases.",
+		Rule:   "every predefined efivar.Efivar (25, each also with APPEND_WRITE added) and random (name, GUID, attribute) definitions x values {empty, boolean, UTF-16 string, signature database, raw} x three efivars directories x the object API (EFIFS over FSWrapper.SetFS) and the legacy attributes.* API (fs.SetFS), on a recording afero.Fs, healthy and with one failing or short call (OpenFile error, Write error, Write one byte short, Write of zero bytes, Close error); every definition's value is also written as a SIGNED update (Efivarfs.WriteSignedUpdate over the EFIFS, RSA-2048): one write to the definition's file with the definition's flags whose buffer is the DEFINITION's 4-byte mask (with or without the time-based-authentication / append bits) followed by an authentication descriptor (by extent) and the value; reads with stored masks {equal, superset, subset, disjoint} and absent / 0..3-byte files, with a probe value that records whether decoding was attempted. The legacy by-name API (attributes.WriteEfivars / ReadEfivars, which derives the vendor GUID from the name): every predefined definition under the global or image-security-database GUID, the four database names db/dbx/dbt/dbr, and suffix / truncation / case variations of all of them (not database names unless they coincide with one), written (also with APPEND_WRITE and with the faults) and read (also through ReadEfivarsWithGuid) against the file <Name>-<GUID of the definition>. The typed accessors (GetPK, GetKEK, Getdb, Getdbx, GetSetupMode, GetSecureBoot, GetBootOrder, GetLoaderEntrySelected, GetBootEntry) against the file of their own definition: only that file is opened, stored masks equal / superset / lacking one required attribute, absent and short files, values of their kind decoded beside the library. ParseEfivars (both twins) with the true size and sizes below four is held to the statement directly, other declared sizes only to the translated code. Writes in flight at once: 90 (thorough 3000) cases of 2..3 goroutines that each write a different variable (values: empty, boolean, boot order, UTF-16 string, 1..96 and 100..500 raw bytes; one shared attribute mask in two cases of three) on ONE caller-supplied filesystem whose Write parks until every writer has reached its own Write - the writers are started one after the other, each when the one before is parked, so the interleaving is always the same - through one shared EFIFS, one EFIFS / FSWrapper per writer, or the legacy package-level API: each write must do on its file exactly what it does alone (one OpenFile with its flags, one Write of ITS mask and ITS value, Close; the file holds them afterwards) and nothing else is touched. Value sizes: buffers of 2^k-1, 2^k, 2^k+1 bytes (k = 9, 12, 13, 16; thorough also 15) and SHA-256 databases of 100 / 400 / 1000 (thorough 3000) entries through every API, healthy and faulted, and read back. Held results: sequences of 2..8 (thorough ..20) reads and writes of 1..4 variables (values of 0..2000 bytes that grow, shrink and repeat; masks equal / superset / lacking a required attribute; absent and short files) through ONE EFIFS / FSWrapper and the one legacy filesystem, every read through one of GetVar and GetVarWithAttributes (with an Unmarshallable that keeps the bytes it is handed, without copying), FSWrapper.ReadEfivarsWithGuid, FSWrapper.ReadEfivarsFile and attributes.ReadEfivarsWithGuid (the returned *bytes.Buffer is kept): each read is compared with the bytes the file holds at that moment and with the Lean model, and every value handed out by an earlier read is compared again after every later read and write (of another variable, or of the same one after a new write) and must still be the value that was read. Every case is non-trivial; distinct = distinct cases.",
 		Assume: []string{"variable names contain no '/' and the efivars directory is a clean absolute path (path.Join would otherwise rewrite them)", "with a filesystem other than the in-memory one the legacy writer additionally probes the immutable flag of the same path on the operating system's filesystem (attr.IsImmutable, which opens with O_CREATE); with the operating system's own filesystem that is the file being written. With the in-memory filesystem nothing outside it may be touched: the real-dir cases check that against a directory that exists on the machine (F34)"},
 		Eval:   c11Eval, Gen: c11Gen,
 	})
